@@ -21,8 +21,8 @@ const (
 	maxNativeFunctionsCount  = 256
 	maxScriggoFunctionsCount = 256
 	maxFieldIndexesCount     = 256
-	maxFuncParamsCount       = 128 // reflect.FuncOf panics with more parameters and results.
-	maxSelectCasesCount      = 65536
+	maxFuncParamsCount       = 128   // reflect.FuncOf panics with more parameters and results.
+	maxSelectCasesCount      = 65535 // reflect.Select accepts 65536 cases and the VM adds one for the context.
 
 	// Non-local variables.
 	maxGlobalsCount     = 1 << 15 // 32768
